@@ -697,6 +697,30 @@ func rulesC19(e *Engine, r *Report) {
 			r.Check(okAdd, "R19.13", "main.(*clientApp).setDefaults: a pattern-less http tag is added when none exists", e.Pos(fn.Pos()), "the fallback default tag is not added under `no default tag found`", 1)
 		}
 	}
+	// ---------------------------------------------------------------- R19.14
+	r.Rule("R19.14", "a file with no usable group is grouped by its tag: the grouper main builds returns the group-by capture only when it is non-empty and differs from the name, and otherwise the tag of the name - an empty capture returned as it is would be the default tag's group, and the file would be sent with the default tag's priority, order and delete settings whatever tag its name matches")
+	if top := needFn(e, r, "R19.14", "main.(*clientApp).init"); top != nil {
+		n := 0
+		for _, fn := range WithClosures(top) {
+			if fn == top {
+				continue
+			}
+			capt := "call(regexp.(*Regexp).FindStringSubmatch)(^p0.conf.GroupBy, p0)[1]"
+			for _, rw := range e.returnWorlds(r, "R19.14", fn, labeler(
+				C("("+capt+" != \"\")", "nonEmpty"), C("(\"\" != "+capt+")", "nonEmpty"),
+				C("("+capt+" != p0)", "notName"), C("(p0 != "+capt+")", "notName"),
+			)) {
+				rt := rw.In.(*ssa.Return)
+				if len(rt.Results) != 1 || e.Canon(rt.Results[0]) != capt {
+					continue
+				}
+				n++
+				r.Check(rw.W.HasAll("nonEmpty", "notName"), "R19.14", fmt.Sprintf("%s: the capture is returned only when non-empty and different from the name (b%d)", e.ShortName(fn), rw.In.Block().Index), e.InstrPos(rw.In),
+					"the grouper returns the group-by capture on a path where it may be empty or the name itself", 1, rw.W.String())
+			}
+		}
+		r.Min("R19.14", "returns of the group-by capture", n, 1)
+	}
 }
 
 func tagOfField(f *types.Var) string { return strings.ToLower(f.Name()) }
